@@ -251,4 +251,126 @@ theorem celtLossRun_append (a b : List (Option Nat)) : ∀ ld, celtLossRun ld (a
     | none => simp only [List.cons_append, celtLossRun]; exact ih _
     | some lm => simp only [List.cons_append, celtLossRun]; exact ih _
 
+/-! ### which concealment a lost CELT frame gets -/
+
+/-- The regenerated constants of the concealment-kind machine. -/
+theorem celt_kind_consts : celtNoiseFrom = 40 ∧ celtSkipAfterReset = true ∧ celtSkipAfterTwoGood = false ∧
+    celtSkipAfterNoise = true := by decide
+
+theorem celtLostKind_pitch_iff (s : CeltPlc) (start : Int) :
+    celtLostKind s start = .pitch ↔ s.ld < 40 ∧ start = 0 ∧ s.skip = false := by
+  unfold celtLostKind
+  have : celtNoiseFrom = 40 := rfl
+  rw [this]
+  constructor
+  · intro h
+    split at h
+    · cases h
+    · rename_i hc
+      refine ⟨by omega, by omega, ?_⟩
+      cases hs : s.skip
+      · rfl
+      · exact absurd (Or.inr (Or.inr hs)) hc
+  · rintro ⟨h1, h2, h3⟩
+    have : ¬ (s.ld ≥ 40 ∨ start ≠ 0 ∨ s.skip = true) := by
+      rintro (h | h | h)
+      · omega
+      · exact h h2
+      · rw [h3] at h; cases h
+    rw [if_neg this]
+
+theorem celtLostKind_noise_iff (s : CeltPlc) (start : Int) :
+    celtLostKind s start = .noise ↔ 40 ≤ s.ld ∨ start ≠ 0 ∨ s.skip = true := by
+  have h := celtLostKind_pitch_iff s start
+  cases hk : celtLostKind s start
+  · rw [hk] at h
+    have := h.mp rfl
+    constructor
+    · intro h'; cases h'
+    · rintro (h' | h' | h')
+      · omega
+      · exact absurd this.2.1 h'
+      · rw [this.2.2] at h'; cases h'
+  · constructor
+    · intro _
+      apply Decidable.byContradiction
+      intro hn
+      have : celtLostKind s start = .pitch := h.mpr ⟨by omega, by
+        apply Decidable.byContradiction; intro h0; exact hn (Or.inr (Or.inl h0)), by
+        cases hs : s.skip
+        · rfl
+        · exact absurd (Or.inr (Or.inr hs)) hn⟩
+      rw [hk] at this; cases this
+    · intro _; rfl
+
+/-- Noise concealment is sticky: it sets `skip_plc`, a set `skip_plc` forces noise concealment and
+    survives further lost frames and a single decoded frame that follows a loss. -/
+theorem celt_skip_sticky (s : CeltPlc) (start : Int) (lm : Nat) :
+    (celtLostKind s start = .noise → (celtLost s start lm).skip = true) ∧
+    (s.skip = true → celtLostKind s start = .noise) ∧
+    (s.skip = true → s.ld ≠ 0 → (celtGood s lm).skip = true) := by
+  refine ⟨?_, ?_, ?_⟩
+  · intro h; unfold celtLost; rw [if_pos h]; rfl
+  · intro h; exact (celtLostKind_noise_iff s start).mpr (Or.inr (Or.inr h))
+  · intro h h0; unfold celtGood; simp only [if_neg h0]; exact h
+
+/-- Two consecutive decoded frames re-enable the pitch-based concealment (and one does not, after a
+    noise-concealed loss: see `celt_skip_sticky`). -/
+theorem celt_two_good (s : CeltPlc) (a b : Nat) (ha : a < 4) :
+    (celtGood (celtGood s a) b).skip = false ∧ (celtGood (celtGood s a) b).ld = celtLossGood b := by
+  have h0 : (celtGood s a).ld = 0 := by
+    unfold celtGood celtLossGood
+    have hc : a = 0 ∨ a = 1 ∨ a = 2 ∨ a = 3 := by omega
+    rcases hc with rfl | rfl | rfl | rfl <;> rfl
+  refine ⟨?_, rfl⟩
+  show (if (celtGood s a).ld = 0 then false else (celtGood s a).skip) = false
+  rw [if_pos h0]
+
+/-- What the frames of one loss burst get, as a function of the loss duration at the start of each. -/
+def burstKinds : Int → List Nat → List PlcKind
+  | _, [] => []
+  | ld, lm :: rest => (if ld < 40 then .pitch else .noise) :: burstKinds (celtLossStep ld lm) rest
+
+/-- A loss burst in CELT-only mode (start band 0): as long as `skip_plc` is clear the frame whose
+    `loss_duration` on entry is below 40 (i.e. fewer than 100 ms concealed so far) is concealed by the
+    pitch-based PLC and every later one by the noise PLC. -/
+theorem celt_burst_kinds : ∀ (lms : List Nat) (s : CeltPlc), (∀ lm ∈ lms, lm < 4) → 0 ≤ s.ld ∧ s.ld ≤ 10000 →
+    (s.skip = true → 40 ≤ s.ld) →
+    (celtPlcRun s (lms.map (fun lm => CeltEv.lost lm 0))).2 = burstKinds s.ld lms := by
+  intro lms
+  induction lms with
+  | nil => intro s _ _ _; rfl
+  | cons lm rest ih =>
+    intro s hl hr hs
+    simp only [List.map_cons, celtPlcRun, burstKinds]
+    have hlm := hl lm (by simp)
+    obtain ⟨h1, h2, _, _⟩ := celtLossStep_spec s.ld lm hlm hr
+    have hkind : celtLostKind s 0 = (if s.ld < 40 then PlcKind.pitch else PlcKind.noise) := by
+      by_cases h40 : s.ld < 40
+      · rw [if_pos h40]
+        apply (celtLostKind_pitch_iff s 0).mpr
+        refine ⟨h40, rfl, ?_⟩
+        cases hsk : s.skip
+        · rfl
+        · have := hs hsk; omega
+      · rw [if_neg h40]
+        exact (celtLostKind_noise_iff s 0).mpr (Or.inl (by omega))
+    rw [hkind]
+    congr 1
+    have := ih (celtLost s 0 lm) (fun x hx => hl x (by simp [hx])) ⟨by unfold celtLost; simp only; omega, by unfold celtLost; simp only; exact h2⟩
+      (by
+        intro hsk
+        unfold celtLost at hsk ⊢
+        simp only at hsk ⊢
+        by_cases h40 : s.ld < 40
+        · rw [hkind, if_pos h40] at hsk
+          simp only [reduceCtorEq, ↓reduceIte] at hsk
+          have := hs hsk; omega
+        · omega)
+    simpa [celtLost] using this
+
+/-- In hybrid mode (start band 17) every lost frame is concealed by the noise PLC. -/
+theorem celt_hybrid_noise (s : CeltPlc) (start : Int) (h : start ≠ 0) : celtLostKind s start = .noise :=
+  (celtLostKind_noise_iff s start).mpr (Or.inr (Or.inl h))
+
 end Opus.SilkPlcGains
